@@ -147,7 +147,7 @@ def harness_closure(files):
         txt = open(hp).read()
         for m in re.finditer(r'^\s*//@ uses:\s*(.*)$', txt, flags=re.M):
             for dep in m.group(1).replace(",", " ").split():
-                if dep not in need:
+                if dep.endswith(".rs") and dep not in need:
                     todo.append(dep)
         for m in re.finditer(r'crate::[A-Za-z0-9_:]*?::verif[A-Za-z0-9_]*', txt):
             tok = m.group(0)
